@@ -68,7 +68,8 @@ Qed.
 Print Assumptions c08_omitempty_old_refuted.
 
 Theorem c08_model_agreement_implies_property :
-  forall c, lossless (c_ty c) = true -> wf (c_ty c) (c_val c) = true -> valid_utf8 (c_tag c) = true ->
+  forall c, lossless (c_ty c) = true -> wf (c_ty c) (c_val c) = true ->
+            forallb (wf (c_ty c)) (c_rest c) = true -> valid_utf8 (c_tag c) = true ->
             check_case c = true -> holds_on c = true.
 Proof. exact model_agreement_implies_property. Qed.
 Print Assumptions c08_model_agreement_implies_property.
